@@ -236,7 +236,7 @@ def _big_group_sets(draw):
     """90-130 scores per class (either side of the dynamic single-pass switch at 100), 2-3 groups,
     every group present in both classes."""
     n, m = draw(st.integers(90, 130)), draw(st.integers(90, 130))
-    G = draw(st.integers(2, 3))
+    G = draw(st.sampled_from([1, 1, 2, 3]))  # a single group is a group, too
     names = ["a", "b", "c_d"][:G]
     seed = draw(st.integers(0, 10**6))
     rs = np.random.RandomState(seed)
@@ -305,7 +305,9 @@ def check_sampling(case):
 
     d = case["d"]
     method, strat = case["method"], case["strat"]
-    if not sampling_ok(d, method, strat):
+    # group-wise single-pass sampling iterates over the *listed* names; an explicitly listed
+    # group without members is an empty stratum, which the property's domain excludes
+    if not sampling_ok(d, method, strat, names=d.get("given_names")):
         return dict(nontrivial=False, labels=["skipped:empty-stratum"])
     g = _make(d)
     src_t = triples(g)
@@ -321,8 +323,8 @@ def check_sampling(case):
                          f"{method}/{strat} seed={case['seed']} draw {j} config={d['sc']}/{d['ec']}", gc)
     require(triples(g) == src_t, "grp:source-mutated", "")
     lacking = set(d["pg"]) != set(d["ng"])
-    return dict(nontrivial=len(names) >= 2 and lacking or len(names) >= 2,
-                labels=[f"{method}/{strat}"] + (["group-lacks-class"] if lacking else [])
+    return dict(nontrivial=len(names) >= 2 or len(d["pos"]) >= 90,
+                labels=[f"{method}/{strat}", f"groups:{min(len(names), 3)}"] + (["group-lacks-class"] if lacking else [])
                 + (["big-source"] if len(d["pos"]) >= 90 else []))
 
 
